@@ -98,6 +98,8 @@ def reduce_axis(f, a, axis, keepdims=False):
     a = _o(a)
     if axis is None:
         r = f(list(a.flat))
+        if isinstance(r, float):
+            r = _np.float64(r)      # numpy scalars carry .item() etc.
         if keepdims:
             out = _np.empty((1,) * a.ndim, dtype=object)
             out[(0,) * a.ndim] = r
